@@ -243,11 +243,11 @@ func cssCase(r *vlib.Rng) []vlib.Case {
 	}
 	boxStyle := func() string {
 		if boxKind == 0 {
-			return fmt.Sprintf("left:%dpx; top:%dpx; width:%dpx; height:%dpx; padding:%dpx; border:%dpx solid red; font-size:%dpx",
-				r.Range(0, 300), r.Range(0, 300), r.Range(1, 300), r.Range(1, 200), r.Range(0, 9), r.Range(0, 5), vlib.Pick(r, []int{8, 10, 16, 20, 40}))
+			return fmt.Sprintf("left:%dpx; top:%dpx; width:%dpx; height:%dpx; padding:%dpx; border:%dpx solid red; margin:%dpx %dpx; font-size:%dpx",
+				r.Range(0, 300), r.Range(0, 300), r.Range(1, 300), r.Range(1, 200), r.Range(0, 9), r.Range(0, 5), r.Range(0, 3)*r.Range(0, 20), r.Range(0, 3)*r.Range(0, 20), vlib.Pick(r, []int{8, 10, 16, 20, 40}))
 		}
-		return fmt.Sprintf("width:%dpx; height:%dpx; padding:%dpx; border:%dpx solid red; font-size:%dpx",
-			r.Range(1, 120), r.Range(1, 80), r.Range(0, 9), r.Range(0, 5), vlib.Pick(r, []int{8, 10, 16, 20, 40}))
+		return fmt.Sprintf("width:%dpx; height:%dpx; padding:%dpx; border:%dpx solid red; margin:%dpx %dpx; font-size:%dpx",
+			r.Range(1, 120), r.Range(1, 80), r.Range(0, 9), r.Range(0, 5), r.Range(0, 2)*r.Range(0, 12), r.Range(0, 2)*r.Range(0, 12), vlib.Pick(r, []int{8, 10, 16, 20, 40}))
 	}
 	tag := "div"
 	open, mid, close := "", "", ""
@@ -634,7 +634,7 @@ func main() {
 				parts = append(parts, part)
 				srcs = append(srcs, src)
 			}
-			attr := strings.Join(parts, vlib.Pick(r, []string{" ", "", ", "}))
+			attr := strings.Join(parts, vlib.Pick(r, []string{" ", "", ", ", " , ", ",", "  ,  ", "\t", " \n "}))
 			res, cnt, err := svg.VerifAggregateTransform(attr)
 			if err != nil || cnt != m || !finiteT(res) {
 				// the generator only writes valid attributes: a rejection is a disagreement
